@@ -14,6 +14,7 @@ import (
 	"verif/checks/c15"
 	"verif/checks/c16"
 	"verif/checks/c17"
+	"verif/checks/c19"
 	"verif/checks/ccrypto"
 	"verif/engine"
 )
@@ -31,6 +32,7 @@ var checks = map[string]check{
 	"C15": {"model_checking", c15.Run},
 	"C16": {"model_checking", c16.Run},
 	"C17": {"model_checking", c17.Run},
+	"C19": {"model_checking", c19.Run},
 	"C05": {"model_checking", ccrypto.RunC05},
 	"C06": {"model_checking", ccrypto.RunC06},
 	"C07": {"model_checking", ccrypto.RunC07},
@@ -43,6 +45,10 @@ func main() {
 		os.Exit(3)
 	}
 	id := strings.ToUpper(os.Args[1])
+	if id == "WORKER" {
+		engine.WorkerMain(os.Args[2:])
+		return
+	}
 	if id == "C02RACE" {
 		n, _ := strconv.Atoi(os.Args[2])
 		c02.RaceBody(n)
